@@ -1,7 +1,8 @@
 (* Props/C04.v — property theorems only. *)
 From Coq Require Import List NArith ZArith.
 From N0 Require Import Base.PyStr Base.PyVal Xpath.Dec Xpath.DecProofs Xpath.Token Xpath.TokenProofs
-  Xpath.Find Xpath.FindProofs Xpath.Write Xpath.SpecProofs Xpath.WalkProofs.
+  Xpath.Find Xpath.FindProofs Xpath.Write Xpath.SpecProofs Xpath.WalkProofs Xpath.TokenizeProofs Xpath.EnumProofs
+  Xpath.FstrProofs Xpath.DeleteProofs Xpath.CreateProofs Xpath.AppendProofs.
 Import ListNotations.
 
 (* get / first convert every exception of the resolver that the funnel names
@@ -55,3 +56,14 @@ Theorem C04_out_of_range_is_miss :
   dict_get_core fuel root x re rl dflt = Ok (root, if re then LRaise ExIndex else dflt).
 Proof. exact out_of_range_is_miss. Qed.
 Print Assumptions C04_out_of_range_is_miss.
+
+(* ... and a name step below a scalar *)
+Theorem C04_below_scalar_is_miss :
+  forall fuel root x re rl dflt toks p s y rest name ix,
+  has_path_char x = true -> tokenize x = toks ++ y :: rest ->
+  walk root toks p (Leaf s) ->
+  split_name_index y = Ok (name, ix) -> name <> [] -> pstr_eqb name s_dotdot = false ->
+  2 * length toks + 1 <= fuel ->
+  dict_get_core fuel root x re rl dflt = Ok (root, if re then LRaise ExIndex else dflt).
+Proof. exact lookup_below_scalar_is_miss. Qed.
+Print Assumptions C04_below_scalar_is_miss.
